@@ -27,31 +27,38 @@ CompDiff(s1, h1, l1, s2, h2, l2) ==
   ELSE IF h1 + h2 > 1 THEN 1000000000 ELSE (h1 + h2) * 16777216 + l1 + l2      \* opposite signs: both must be tiny
 CoarseDiff(s1, h1, s2, h2) == IF s1 = s2 \/ h1 = 0 \/ h2 = 0 THEN AbsV((IF s1 = 0 THEN 0 ELSE h1) - (IF s2 = 0 THEN 0 ELSE h2)) ELSE h1 + h2
 Shift(c) == <<c[1] + 1, c[2], HalfHi(c[3], c[4]), HalfLo(c[3], c[4]), c[5], HalfHi(c[6], c[7]), HalfLo(c[6], c[7])>>
-\* distance class of two codes: 0 close (<= Klo units of 2^-53 of the larger component), 1 inconclusive, 2 far (> 2^-20 relative)
+\* distance class of two codes: 0 close, 1 inconclusive, 2 far.  Thresholds by real width:
+\* double: close <= Klo units of 2^-53 of the larger component (2^15 eps), far > 2^-20 relative
+\* float : close <= 2^-18 relative (64 ulps of the larger component), far > 2^-14 relative
 Klo == 65536
-KhiCoarse == 512                      \* 2^9 units of hi (2^-29) = 2^-20 relative
-DistClass(a, b) ==
+KhiCoarse == 512                      \* 2^9 units of hi (one hi unit = 2^-29 relative) = 2^-20
+KloF == 2048                          \* hi units: 2^-18
+KhiF == 32768                         \* hi units: 2^-14
+DistClass(a, b, wd) ==
   IF ~Finite(a) \/ ~Finite(b) THEN (IF a = b THEN 0 ELSE 2)
   ELSE IF IsZero(a) /\ IsZero(b) THEN 0
   ELSE IF IsZero(a) \/ IsZero(b) THEN 2
   ELSE LET x == IF a[1] < b[1] THEN (IF b[1] - a[1] = 1 THEN Shift(a) ELSE a) ELSE a
            y == IF b[1] < a[1] THEN (IF a[1] - b[1] = 1 THEN Shift(b) ELSE b) ELSE b IN
        IF x[1] # y[1] THEN 2
-       ELSE LET d1 == CompDiff(x[2], x[3], x[4], y[2], y[3], y[4])
-                d2 == CompDiff(x[5], x[6], x[7], y[5], y[6], y[7]) IN
-            IF d1 <= Klo /\ d2 <= Klo THEN 0
-            ELSE IF CoarseDiff(x[2], x[3], y[2], y[3]) <= KhiCoarse /\ CoarseDiff(x[5], x[6], y[5], y[6]) <= KhiCoarse THEN 1 ELSE 2
-Close(a, b) == DistClass(a, b) = 0
-NotFar(a, b) == DistClass(a, b) # 2
+       ELSE LET c1 == CoarseDiff(x[2], x[3], y[2], y[3])
+                c2 == CoarseDiff(x[5], x[6], y[5], y[6]) IN
+            IF wd = 4 THEN (IF c1 <= KloF /\ c2 <= KloF THEN 0 ELSE IF c1 <= KhiF /\ c2 <= KhiF THEN 1 ELSE 2)
+            ELSE LET d1 == CompDiff(x[2], x[3], x[4], y[2], y[3], y[4])
+                     d2 == CompDiff(x[5], x[6], x[7], y[5], y[6], y[7]) IN
+                 IF d1 <= Klo /\ d2 <= Klo THEN 0
+                 ELSE IF c1 <= KhiCoarse /\ c2 <= KhiCoarse THEN 1 ELSE 2
+Close(a, b, wd) == DistClass(a, b, wd) = 0
+NotFar(a, b, wd) == DistClass(a, b, wd) # 2
 ConjC(c) == <<c[1], c[2], c[3], c[4], -c[5], c[6], c[7]>>
 NegC(c) == <<c[1], -c[2], c[3], c[4], -c[5], c[6], c[7]>>
 SignRe(c) == c[2]
 SignIm(c) == c[5]
 \* structural rules for a unary function value (u-events)
-Structure(e) ==
+Structure(e, wd) ==
   /\ Finite(e.w) /\ Finite(e.wc) /\ Finite(e.wn)
-  /\ Close(e.wc, ConjC(e.w))                                         \* f(conj z) = conj f(z)
-  /\ (e.par = 1 => Close(e.wn, NegC(e.w))) /\ (e.par = 2 => Close(e.wn, e.w))     \* odd / even
+  /\ Close(e.wc, ConjC(e.w), wd)                                         \* f(conj z) = conj f(z)
+  /\ (e.par = 1 => Close(e.wn, NegC(e.w), wd)) /\ (e.par = 2 => Close(e.wn, e.w, wd))     \* odd / even
   /\ (e.fn = "sqrt" => SignRe(e.w) >= 0 /\ (SignIm(e.z) # 0 => SignIm(e.w) = SignIm(e.z)))   \* principal root
   /\ (e.fn \in {"log", "log2", "log10"} => (SignIm(e.z) # 0 => SignIm(e.w) = SignIm(e.z)) /\ (SignIm(e.z) = 0 /\ SignRe(e.z) > 0 => SignIm(e.w) = 0))
 
